@@ -194,7 +194,11 @@ type EnvFuncs struct {
 	None  func()
 	Two   func() (int, int)
 	h     func() int
-	IFn   interface{} // holds a func(int) int
+	IFn   interface{}     // holds a func(int) int
+	PF    *func(int) int  // pointer to a function: the checker dereferences, so must FetchFn
+	PPF   **func(int) int // two levels
+	NilPF *func(int) int  // nil pointer: accepted; calling it is a value-dependent failure
+	PIFn  *interface{}    // pointer to an interface holding a func(int) int
 	Inner struct {
 		Fn func(string) string
 		N  int
@@ -305,6 +309,7 @@ type EnvScalars struct {
 	Nf   ZNamedFast                       // named func type of the fast shape: not fast
 	Fe   func(...interface{}) error       // result of interface kind, but not interface{}: not fast
 	Fg   func(...ZStringer) interface{}   // variadic over a non-empty interface: not fast
+	PFi  *func(int) int                   // pointer to a function
 	PS   *[]int                           // pointer to a slice
 	PA   *[3]int                          // pointer to an array
 	PPSt **ZA                             // two pointer levels
@@ -354,6 +359,11 @@ func zooSpecial(v reflect.Value) {
 		f := v.Field(i)
 		if v.Type().Field(i).Name == "IFn" && f.CanSet() {
 			f.Set(reflect.ValueOf(func(i int) int { return i + 1 }))
+		} else if v.Type().Field(i).Name == "NilPF" && f.CanSet() {
+			f.Set(reflect.Zero(f.Type()))
+		} else if v.Type().Field(i).Name == "PIFn" && f.CanSet() {
+			var fn interface{} = func(i int) int { return i + 1 }
+			f.Set(reflect.ValueOf(&fn))
 		} else if f.Kind() == reflect.Struct {
 			zooSpecial(f)
 		}
@@ -384,7 +394,9 @@ func zooEnvs(rng *rand.Rand, nRandom int) []zooEnv {
 		zooEnv{"map[string]interface{}", map[string]interface{}{
 			"a": 1, "s": "x", "f": fInt, "st": popIface(EnvDepth{}), "pst": popPtr(EnvAmbig{}), "nilv": nil,
 			"m": map[string]interface{}{"k": 1}, "Fast": func(xs ...interface{}) interface{} { return len(xs) },
+			"pf": &fInt, "fns": popIface(EnvFuncs{}),
 		}},
+		zooEnv{"map[string]*func(int)int", map[string]*func(int) int{"pf": &fInt}},
 		zooEnv{"map[string]int", map[string]int{"a": 1, "b": 2}},
 		zooEnv{"map[string]ZA", map[string]ZA{"za": {1, "y"}}},
 		zooEnv{"map[string]func(int)int", map[string]func(int) int{"f": fInt}},
